@@ -208,7 +208,7 @@ KindAndStep ==
         LET ff == FirstFail(plan, wtyped, i) IN
         /\ (written[i].kind = "completed") <=> (ff = 0)
         /\ ff # 0 => /\ written[i].origin = ff
-                      /\ written[i].src = i \/ (~named[i] /\ written[i].src = Unknown)
+                      /\ (written[i].src = i \/ (~named[i] /\ written[i].src = Unknown))
         /\ ff = 0 => written[i].src = i
 
 (* a NotCompleted passes unchanged through every later step *)
